@@ -90,6 +90,51 @@ def run_histories(cases, queries=QUERIES, timeout=1800):
     return impl, model
 
 
+def quiet_stream(chk, rng, n, max_ops=8, queries=QUERIES, deep=False):
+    """histories whose calls are made WITHOUT anything being read in between (harness markers `quiet` / `loud`): the dump, the
+    navigation views, the order keys, the query battery and the serialization are looked at only when the history is over (or,
+    for half of them, before it starts being quiet).  What one call leaves behind - a flag, a cache, a key - meets the next call as
+    it is; reading after every step renumbers and clears.  Compared with the model: the status of every call and the final dump;
+    monitored: every flag of the final state (round-8 seed C07-L: a refused insert took back the `order is stale` mark of the
+    successful insert before it).  Returns (monitor failures, tie differences, number of histories)."""
+    cases = []
+    for _ in range(n):
+        h = D.Hist(rng, max_ops=max_ops, hostile=0.15)
+        t, ops = h.history()
+        # a refused structural call in the middle: an ancestor offered as a child, a node as its own sibling
+        if rng.random() < 0.6 and len(h.shadow) > 3:
+            ops.insert(rng.randrange(len(ops) + 1), rng.choice(["ap:h%d:h1" % h.pick(("elem",)), "ib:h1:h%d:h%d" % (h.pick(("elem",)), len(h.shadow) + 5),
+                                                              "ap:h%d:h0" % h.pick(("elem",)), "rm:h1:h0"]))
+        k = rng.randrange(len(ops) + 1) if rng.random() < 0.5 else 0
+        cases.append((t, ops, ops[:k] + ["quiet"] + ops[k:] + ["loud"]))
+    impl = lib.run_lines(lib.build_harness(), [lib.req("dom", t, queries, *q) for t, _, q in cases], timeout=1800, per_line_resume=True)
+    model = lib.run_lines(lib.model_driver(), [lib.req("dom", t, queries, *ops) for t, ops, _ in cases], timeout=1800, per_line_resume=True)
+    mfail, tdis = [], []
+    for (t, ops, q), a, m in zip(cases, impl, model):
+        ra = [r for r, o in zip(D.split_records(a)[1:], q) if o not in ("quiet", "loud")]
+        last = D.split_records(a)[-1] if a else None
+        rm_ = D.split_records(m)[1:]
+        chk.count(["quiet", t] + q, nontrivial=True)
+        if last is None or len(ra) != len(ops):
+            mfail.append((t, q, len(q), "a history made without reading in between: the run broke off (%s)" % a[:80], a[:300]))
+            continue
+        bad_status = next((i for i, (x, y) in enumerate(zip(ra, rm_)) if x["status"] != y["status"]), None)
+        if bad_status is not None:
+            tdis.append((t, q, bad_status + 1, "status (quiet history)", ra[bad_status]["status"], rm_[bad_status]["status"]))
+            continue
+        for fl in ("inv", "ord", "rt", "q"):
+            v = last["flags"].get(fl)
+            if v is not None and v not in ("ok", "skip") and "SIDE-EFFECT" not in v:
+                mfail.append((t, q, len(q), "after calls made WITHOUT reading anything in between, the state read at the end is "
+                              "inconsistent (%s)" % {"inv": "navigation views", "ord": "document-order keys", "rt": "serialization",
+                                                     "q": "a query on the edited document vs a fresh parse"}[fl], v[:600]))
+                break
+        else:
+            if rm_ and last.get("dump") != rm_[-1].get("dump"):
+                tdis.append((t, q, len(q), "final dump (quiet history)", (last.get("dump") or "")[:300], (rm_[-1].get("dump") or "")[:300]))
+    return mfail, tdis, len(cases)
+
+
 def op_histogram(cases):
     h = {}
     for _, ops in cases:
@@ -129,11 +174,14 @@ def common(chk, prop, thorough, n_quick, n_thorough, max_ops_q, max_ops_t, hosti
         pr["failed"] = list(pr["failed"]) + list(pr2["failed"])
         pr["log"] = pr["log"] + pr2["log"]
     n = n_thorough if thorough else n_quick
+    qm, qt, qn = quiet_stream(chk, rng, 400 if thorough else 120)
+    chk.cov["quiet_histories"] = qn
+    chk._quiet = (qm, qt)
     cases = histories(rng, n, max_ops_t if thorough else max_ops_q, hostile, deep=4 if prop in ("C14", "C12") else 2)
     cases += [(t, ops.split(" ")) for t, ops in (l.split("\t", 1) for l in X.corpus_lines(prop, "found.txt") if "\t" in l)]
-    if prop in ("C13", "C12"):
+    if prop in ("C13", "C12", "C15"):
         mc = matrix_cases()
-        cases += mc if thorough or prop == "C13" else mc[::5]
+        cases += mc
     impl, model = run_histories(cases)
     ri = [D.split_records(a) for a in impl]
     rm = [D.split_records(m) for m in model]
@@ -159,6 +207,9 @@ def tie_failures(cases, ri, rm, findings, chk):
 
 
 def finish(chk, prop, mfail, tdis, problems, pr):
+    qm, qt = getattr(chk, "_quiet", ([], []))
+    mfail = list(mfail) + list(qm)
+    tdis = list(tdis) + list(qt)
     for t, ops, i, why, detail in mfail[:4]:
         chk.violation("hist_%s" % lib.enc(" ".join(ops[:i]))[-70:],
                       "property %s: %s\n%s\n%s" % (prop, why, detail[:1200], replay_text(t, ops, i)))
@@ -266,6 +317,31 @@ def run_c13(chk):
                 break
     fm, ncalls = foreign_stream(chk, [t for t, _ in cases[:40]])
     mfail += fm
+    # ---- value items of attributes supplied from attribute-list defaults: they belong to the declaration, every element of the
+    # type shares them; a call on them that fails (most do: HIERARCHY_REQUEST_ERR / NO_MODIFICATION_ALLOWED_ERR) leaves the default
+    # as it was for every element (monitor only; round-8 seed C13-K cut the default before split_text refused)
+    ddocs_ = ["<!DOCTYPE r [<!ATTLIST r d CDATA \"hello\">]><r/>", "<!DOCTYPE r [<!ATTLIST r d CDATA 'say hi' e CDATA #FIXED 'fixed'>]><r><k/></r>",
+              "<!DOCTYPE r [<!ENTITY e 'v'><!ATTLIST r d CDATA 'a&e;b'>]><r d2='x'/>"]
+    dl_, dm_ = [], []
+    for dd in ddocs_:
+        for tmpl in (["ga:h2:d", "ch:h3:0", "st:h4:2"], ["ga:h2:d", "ch:h3:0", "st:h4:0"], ["ga:h2:d", "ch:h3:0", "dd:h4:0:2"],
+                     ["ga:h2:d", "ch:h3:0", "rm:h3:h4"], ["ga:h2:d", "ch:h3:0", "ct:z", "rc:h3:h5:h4"], ["ga:h2:d", "ch:h3:0", "ct:z", "ib:h3:h5:h4"],
+                     ["ga:h2:d", "sv:h3:new"], ["ga:h2:d", "ch:h3:0", "sd:h4:new"], ["ga:h2:d", "ch:h3:0", "rd:h4:0:1:Z"], ["ga:h2:d", "nz:h2"]):
+            dl_.append(lib.req("dom", dd, "string(/r/@d);count(//@*)", *(tmpl + ["ga:h2:d", "ch:h%d:0" % (3 + len(tmpl))])))
+            dm_.append((dd, tmpl))
+    do_ = lib.run_lines(lib.build_harness(), dl_, timeout=600, per_line_resume=True)
+    for (dd, tmpl), o in zip(dm_, do_):
+        recs = D.split_records(o)
+        for i_ in range(1, len(recs)):
+            chk.count(["default-items", dd] + tmpl[:i_], nontrivial=True)
+            if recs[i_]["status"] in ("panic", "abort", "timeout") and not (i_ <= len(tmpl) and tmpl[i_ - 1].split(":")[0] in ("ct", "cc", "cd")):
+                mfail.append((dd, tmpl, i_, "a call on a value item of a defaulted attribute: " + recs[i_]["status"], recs[i_]["status"]))
+                break
+            if recs[i_]["status"].startswith("err") and recs[i_].get("dump") != recs[i_ - 1].get("dump"):
+                mfail.append((dd, tmpl, i_, "a refused call on a value item of a defaulted attribute changed something (the default is "
+                              "shared by every element of the type)", "before: %s\nafter:  %s" % (recs[i_ - 1].get("dump", "")[:400],
+                                                                                                 recs[i_].get("dump", "")[:400])))
+                break
     # ---- the text-expanded view (what xq / xe read): a run of text, CDATA and references is ONE node made of several items; a call
     # that has to leave the tree as it is - inserting a node before itself, replacing it by itself - leaves the run as it is, item
     # for item (round-7 seed C13-J rotated the items)
@@ -456,6 +532,41 @@ def run_c14(chk):
     finish(chk, "C14", mfail, tie_failures(cases, ri, rm, findings, chk), problems, pr)
 
 
+def default_write_failures(chk):
+    """setAttribute for a name that so far came from an attribute-list default: afterwards the element carries a SPECIFIED attribute
+    of that name holding the value (round-8 seeds C11-K / C15-K wrote into the throw-away node of the default)"""
+    docs = ["<!DOCTYPE r [<!ATTLIST r d CDATA 'dv'>]><r/>", "<!DOCTYPE r [<!ATTLIST r d NMTOKENS ' p  q ' e CDATA #FIXED 'f'>]><r><k/></r>",
+            "<!DOCTYPE r [<!ENTITY e 'v'><!ATTLIST r d CDATA 'a&e;b'>]><r d2='x'/>"]
+    lines, meta = [], []
+    for dd in docs:
+        for v in ("z", "a b", "\u00e9", "x y z"):
+            lines.append(lib.req("dom", dd, "string(/r/@d)", "sa:h2:d:" + D.enc2(v), "ga:h2:d"))
+            meta.append((dd, v))
+    out = []
+    for (dd, v), o in zip(meta, lib.run_lines(lib.build_harness(), lines, timeout=300, per_line_resume=True)):
+        recs = D.split_records(o)
+        chk.count(["default-write", dd, v], nontrivial=True)
+        if len(recs) >= 2 and recs[1]["status"].startswith("ok") and ("A(d,1)[" not in recs[1].get("dump", "")
+                                                                      or lib.enc(v).replace("%", "%25") not in recs[1].get("dump", "") and lib.enc(v) not in recs[1].get("dump", "")):
+            out.append((dd, ["sa:h2:d:" + D.enc2(v)], 1, "setAttribute reported success for an attribute that came from a default; the element "
+                        "carries no specified attribute of that name with that value afterwards", recs[1].get("dump", "")[:400]))
+    return out
+
+
+def doctype_removal(v, text):
+    """the recorded finding doctype-removal: the serialization does not parse BECAUSE it refers to a general entity that the
+    document's own DOCTYPE declared and the serialization no longer carries a DOCTYPE"""
+    import re as _re
+    if not v.startswith("BAD(serialization does not parse"):
+        return False
+    ser = lib.dec(v[len("BAD(serialization does not parse: "):].rstrip(")"))
+    if "<!DOCTYPE" in ser or "<!DOCTYPE" not in text:
+        return False
+    declared = set(_re.findall(r"<!ENTITY\s+([^\s%]+)", text))
+    left = set(_re.findall(r"&([A-Za-z_:][^;&<\s]*);", ser)) - {"amp", "lt", "gt", "apos", "quot"}
+    return bool(left) and left <= declared
+
+
 def run_c15(chk):
     thorough = chk.tier == "thorough"
     rng, problems, pr, cases, ri, rm, findings = common(chk, "C15", thorough, 700, 4000, 10, 25, 0.45)
@@ -473,8 +584,16 @@ def run_c15(chk):
                     break
             v = x["flags"].get("rt")
             if v is not None and v not in ("ok", "skip"):
+                if doctype_removal(v, t) and "doctype-removal" in findings:
+                    chk.known_finding("doctype-removal " + findings["doctype-removal"]["text"])
+                    break
                 mfail.append((t, ops, i, "after calls that all reported success the serialization is rejected by the parser or denotes "
                               "other content than the DOM reports", v))
+                break
+            iv = x["flags"].get("inv") or ""
+            if "reports the value" in iv:
+                # (round-8 seed C15-L: the value an attribute reports was remembered and not forgotten when a Text child was edited)
+                mfail.append((t, ops, i, "the DOM reports a value for an attribute that its items (and the serialization) do not denote", iv[:600]))
                 break
     # ---- attributes supplied from attribute-list defaults: their value items are reachable (and editable) through the DOM;
     # whatever the edits do, the document must still print to text the parser accepts and that denotes what the DOM reports
@@ -485,7 +604,8 @@ def run_c15(chk):
     dlines, dmeta = [], []
     for dd in ddocs:
         for v in dvals:
-            for tmpl in (["ga:h2:d", "ch:h3:0", "ad:h4:V"], ["ga:h2:d", "ch:h3:0", "sd:h4:V"], ["ga:h2:d", "ch:h3:0", "id:h4:1:V"],
+            for tmpl in (["sa:h2:d:V", "ga:h2:d"], ["ga:h2:d", "ch:h3:0", "st:h4:1"], ["ga:h2:d", "ch:h3:0", "st:h4:0", "ga:h2:d", "ch:h6:0"],
+                         ["ga:h2:d", "ch:h3:0", "ad:h4:V"], ["ga:h2:d", "ch:h3:0", "sd:h4:V"], ["ga:h2:d", "ch:h3:0", "id:h4:1:V"],
                          ["ga:h2:d", "sv:h3:V"], ["ga:h2:d", "ch:h3:0", "rd:h4:0:2:V"], ["ga:h2:d", "ct:V", "ap:h3:h4"],
                          ["ga:h2:d", "ct:V", "ap:h2:h4", "ap:h3:h6", "ib:h2:h4:-", "rm:h3:h4"]):
                 ops = [o.replace("V", D.enc2(v)) for o in tmpl]
@@ -493,9 +613,22 @@ def run_c15(chk):
                 dmeta.append((dd, ops))
     douts = lib.run_lines(lib.build_harness(), dlines, timeout=600, per_line_resume=True)
     for (dd, ops), o in zip(dmeta, douts):
-        for i, rec in enumerate(D.split_records(o)):
+        drecs = D.split_records(o)
+        for i, rec in enumerate(drecs):
             chk.count(["default-edit", dd] + ops[:i], nontrivial=i > 0)
             v = rec["flags"].get("rt")
+            # a value handed to setAttribute for a name that so far came from a default is STORED (the element then carries a
+            # specified attribute of that name) or refused - never accepted and dropped (round-8 seeds C11-K / C15-K)
+            if i > 0 and ops[i - 1].startswith("sa:h2:d:") and rec["status"].startswith("ok") and "A(d,1)[" not in rec.get("dump", ""):
+                mfail.append((dd, ops, i, "setAttribute reported success for an attribute that came from a default, and the element "
+                              "carries no specified attribute of that name afterwards", rec.get("dump", "")[:400]))
+                break
+            # a call that fails leaves everything as it was - also the default itself, which every element of the type shares
+            # (round-8 seed C13-K cut the default before split_text found out that it had to refuse)
+            if i > 0 and rec["status"].startswith("err") and rec.get("dump") != drecs[i - 1].get("dump"):
+                mfail.append((dd, ops, i, "a refused call on a value item of a defaulted attribute changed something",
+                              "before: %s\nafter:  %s" % (drecs[i - 1].get("dump", "")[:400], rec.get("dump", "")[:400])))
+                break
             if rec["status"] == "panic" and i > 0 and ops[i - 1].split(":")[0] in ("ct", "cc", "cd") and known_panic(findings, chk, ops[i - 1]):
                 break
             if rec["status"] in ("panic", "abort", "timeout") or (v is not None and v not in ("ok", "skip")):
@@ -543,9 +676,7 @@ def run_c15(chk):
                 mfail.append((t, ops, i, "taking the DOCTYPE out of the document: " + rec["status"], rec["status"]))
                 break
             if v is not None and v not in ("ok", "skip"):
-                left = _re.findall(r"%26([A-Za-z0-9]+)%3B", v)
-                if (v.startswith("BAD(serialization does not parse") and any(n not in ("amp", "lt", "gt", "apos", "quot") for n in left)
-                        and "doctype-removal" in findings):
+                if doctype_removal(v, t) and "doctype-removal" in findings:
                     chk.known_finding("doctype-removal " + findings["doctype-removal"]["text"])
                     break
                 mfail.append((t, ops, i, "after the DOCTYPE was taken out / put back the serialization is rejected by the parser or denotes "
